@@ -324,4 +324,89 @@ theorem refine_neighbour_infix (env : Env) (l : List Hit) : ∀ o ∈ refine env
   have ho' := (removeIncomplete_sublist env _).subset ho
   exact mergeImmediate_infix env ((sortHits_sorted l).sublist (removeOverlapping_sublist env _)) o ho'
 
+/-! ### the driver's fragment search (`provenanceOK`) is complete: it finds the fragments the proof exhibits -/
+
+theorem mem_sublistsOf {α} : ∀ {l' l : List α}, l'.Sublist l → l' ∈ sublistsOf l
+  | _, _, .slnil => by simp [sublistsOf]
+  | _, _, .cons a h => by
+    simp only [sublistsOf, List.mem_append]
+    exact Or.inl (mem_sublistsOf h)
+  | _, _, .cons_cons a h => by
+    simp only [sublistsOf, List.mem_append, List.mem_map]
+    exact Or.inr ⟨_, mem_sublistsOf h, rfl⟩
+
+/-- every hit handed to the incomplete rule is the merge of a sub-list (order kept) of the sorted raw hits -/
+theorem beforeIncomplete_sub (env : Env) (nb : Bool) (l : List Hit) : ∀ o ∈ beforeIncomplete env nb l,
+    ∃ F, F.Sublist (sortHits l) ∧ IsMerge env F o := by
+  intro o ho
+  cases nb with
+  | true =>
+    simp only [beforeIncomplete, if_true] at ho
+    have sub := removeOverlapping_sublist env (sortHits l)
+    obtain ⟨F, hin, hm⟩ := mergeImmediate_infix env ((sortHits_sorted l).sublist sub) o ho
+    exact ⟨F, hin.sublist.trans sub, hm⟩
+  | false =>
+    simp only [beforeIncomplete, Bool.false_eq_true, if_false] at ho
+    have h1 := (removeOverlapping_sublist env _).subset ho
+    obtain ⟨h, t, ⟨p, hfil⟩, hmem⟩ := mem_mergeDomainList.mp h1
+    have hsub : (h :: t).Sublist (sortHits l) := by rw [← hfil]; exact List.filter_sublist
+    obtain ⟨F, hin, hm⟩ := mergeImmFrom_infix env h t [] [h] (IsMerge.single env h)
+      ((sortHits_sorted l).sublist hsub) o hmem
+    exact ⟨F, (by simpa using hin.sublist : F.Sublist (h :: t)).trans hsub, hm⟩
+
+theorem provenanceOK_of (env : Env) {S F : List Hit} {o : Hit} (hsub : F.Sublist S) (hm : IsMerge env F o) :
+    provenanceOK env S o = true := by
+  simp only [provenanceOK, Bool.or_eq_true, List.any_eq_true]
+  right
+  refine ⟨F, ?_, isMergeOf_of env hm⟩
+  apply mem_sublistsOf
+  have hall : ∀ f ∈ F, (f.prof == o.prof && decide (o.qs ≤ f.qs) && decide (f.qe ≤ o.qe)) = true := by
+    intro f hf
+    simp [hm.prof f hf, hm.lo f hf, hm.hi f hf]
+  have := hsub.filter (fun f => f.prof == o.prof && decide (o.qs ≤ f.qs) && decide (f.qe ≤ o.qe))
+  rwa [List.filter_eq_self.mpr hall] at this
+
+theorem allProvenanceOK_refine (env : Env) (nb : Bool) (l : List Hit) :
+    allProvenanceOK env (sortHits l) (refine env nb l) = true := by
+  simp only [allProvenanceOK, List.all_eq_true]
+  intro o ho
+  have ho' : o ∈ beforeIncomplete env nb l := (removeIncomplete_sublist env _).subset ho
+  obtain ⟨F, hsub, hm⟩ := beforeIncomplete_sub env nb l o ho'
+  exact provenanceOK_of env hsub hm
+
+/-- the profiles reaching the incomplete rule are profiles of raw hits -/
+theorem beforeIncomplete_prof (env : Env) (nb : Bool) (l : List Hit) : ∀ o ∈ beforeIncomplete env nb l,
+    ∃ f ∈ l, f.prof = o.prof := by
+  intro o ho
+  obtain ⟨F, hsub, hm⟩ := beforeIncomplete_sub env nb l o ho
+  obtain ⟨f₀, rest, e, _, _⟩ := hm.first
+  have hf : f₀ ∈ F := by rw [e]; simp
+  exact ⟨f₀, mem_sortHits.mp (hsub.subset hf), hm.prof f₀ hf⟩
+
+/-- the overlap pass on *any* list (no position order assumed): a result missing from the output
+    collides — earlier list position first — with a returned one that outranks it -/
+theorem removeOverlapping_justified_any (env : Env) (l : List Hit) (j : Nat) (d : Hit) (hj : l[j]? = some d) :
+    d ∈ removeOverlapping env l ∨
+      ∃ i k, l[i]? = some k ∧ k ∈ removeOverlapping env l ∧ i ≠ j ∧
+        (if j ≤ i then conflict env d k else conflict env k d) = true ∧
+        (d.sc < k.sc ∨ (k.sc = d.sc ∧ i < j)) := by
+  have hx : (j, d) ∈ enumFrom 0 l := mem_enumFrom_iff.mpr ⟨Nat.zero_le _, by simpa using hj⟩
+  rcases keptIdx_justified env l (j, d) hx with h | ⟨k, hk, hc, hr⟩
+  · left
+    rw [removeOverlapping_eq]
+    exact List.mem_map.mpr ⟨(j, d), h, rfl⟩
+  · right
+    have hk' := (mem_enumFrom_iff.mp (mem_keptIdx hk)).2
+    simp only [Nat.sub_zero] at hk'
+    have hne : k.1 ≠ j := by
+      intro e
+      rcases hr with hr | hr
+      · rw [e, hj] at hk'
+        simp only [Option.some.injEq] at hk'
+        simp only at hr; rw [hk'] at hr; omega
+      · simp only at hr; omega
+    refine ⟨k.1, k.2, hk', ?_, hne, ?_, hr⟩
+    · rw [removeOverlapping_eq]; exact List.mem_map.mpr ⟨k, hk, rfl⟩
+    · simpa [clashIdx] using hc
+
 end ASV.Refine
